@@ -10,9 +10,13 @@ mod ops_summary;
 mod ops_distinfo;
 mod ops_plist;
 mod ops_index;
+mod ops_pkgdb;
 
 fn run(op: &str, args: &[&str]) -> String {
     if let Some(r) = ops_pattern::run(op, args) {
+        return r;
+    }
+    if let Some(r) = ops_pkgdb::run(op, args) {
         return r;
     }
     if let Some(r) = ops_index::run(op, args) {
@@ -47,7 +51,8 @@ fn main() {
             Some(o) => o,
             None => continue,
         };
-        let args: Vec<&str> = it.collect();
+        /* an operation without arguments is written with a trailing tab */
+        let args: Vec<&str> = it.filter(|a| !a.is_empty()).collect();
         let obs = match catch_unwind(AssertUnwindSafe(|| run(op, &args))) {
             Ok(s) => s,
             Err(_) => "PANIC".to_string(),
